@@ -332,6 +332,10 @@ func Run(tier string, seed int64, outDir string) *common.Meta {
 		}
 		lines = append(lines, fmt.Sprintf("  (%s, %s)", coqfmt.Str(s), obs))
 		idx = append(idx, fmt.Sprintf("ParseGoVersion(%q) = %v, %v", s, v, err))
+		// oracle: only the documented spellings are accepted ('' and a bare prefix mean "no version")
+		if err == nil && !regexp.MustCompile(`^(?:go)?(?:\d+\.\d+)?$`).MatchString(s) {
+			meta.Fail("C15/ParseGoVersion/malformed-accepted", fmt.Sprintf("ParseGoVersion(%q) = %v: a malformed version string is accepted", s, v), s)
+		}
 		// oracle: numeric interpretation of accepted '1.N' / 'go1.N'
 		if m := regexp.MustCompile(`^(?:go)?(\d{1,9})\.(\d{1,9})$`).FindStringSubmatch(s); m != nil {
 			a, _ := strconv.Atoi(m[1])
